@@ -30,6 +30,13 @@ package parser
 //@   ensures recv.currentPos == old(recv.currentPos) + 1
 //@   ensures @C20 cost() <= 0
 
+// Where a parser error is located (C05): at the start of the token the cursor is on, when a position mapping is
+// present and covers it; the zero location (no position) otherwise - never the span of another token.
+//@ func (*Parser).currentLocation
+//@   inherit
+//@   ensures @C05 implies(recv.positions != nil && recv.currentPos < len(recv.positions), result.Line == recv.positions[recv.currentPos].Start.Line && result.Column == recv.positions[recv.currentPos].Start.Column)
+//@   ensures @C05 implies(recv.positions == nil || recv.currentPos >= len(recv.positions), result.Line == 0 && result.Column == 0)
+
 //@ func (*Parser).isType
 //@   inherit
 //@   ensures @C20 cost() <= 0
@@ -141,6 +148,9 @@ package parser
 //@   inherit
 //@   ensures @C09 implies(err == nil, isnew(result0.Tokens) && isnew(result0.PositionMapping))
 //@   loop * invariant @C09 isnew(positions)
+//@   ensures @C05 implies(err == nil, len(result0.Tokens) == len(result0.PositionMapping))
+//@   loop 1 invariant @C05 len(tc.buffer) == len(positions)
+//@   loop 2 invariant @C05 0 <= rangeindex + 1 && rangeindex + 1 <= len(expanded) && len(tc.buffer) == len(positions) + len(expanded) - (rangeindex + 1)
 //@   ensures @C20 implies(succeeded(), cost() <= 80*len(tokens) + 4*acc() + 64)
 //@   loop 1 invariant @C20 0 <= rangeindex + 1 && rangeindex + 1 <= len(tokens) && len(tc.buffer) <= 4*(rangeindex + 1) && acc() >= 0 && cost() <= 64*(rangeindex + 1) + 4*acc() + 8
 //@   loop 2 invariant @C20 0 <= rangeindex + 1 && rangeindex + 1 <= len(expanded) && acc() == pre(acc()) && cost() - pre(cost()) <= 2*(rangeindex + 1) + 2
@@ -149,6 +159,7 @@ package parser
 //@   ensures @C09 implies(err == nil, isnew(result0))
 //@ func convertModelTokensWithPositions
 //@   inherit
+//@   ensures @C05 implies(err == nil, len(result0.Tokens) == len(result0.PositionMapping))
 //@   ensures @C09 implies(err == nil, isnew(result0.Tokens) && isnew(result0.PositionMapping))
 
 // Cost of the token conversion (C20): one pass over the tokens; per token a constant plus the length of its text
